@@ -612,6 +612,8 @@ def render(m, refrnd=None, precrnd=None, extra_header=None, scenarios=None, trai
         L.append('%sresource %s "%s" {' % (ind, g["id"], g["id"]))
         if g.get("shift"):
             L.append("%s  workinghours %s" % (ind, g["shift"]))
+        for sp in spec_text(g.get("inline") or []):
+            L.append(ind + "  " + sp)
         if g.get("limits"):
             L.append("%s  %s" % (ind, limits_text(g["limits"])))
         for s, e in g.get("leaves", []):
